@@ -368,3 +368,11 @@ def parse_nat_lists(out, name):
         return None
     body = m.group(1)
     return [[int(x) for x in re.findall(r"\d+", grp)] for grp in re.findall(r"\[([^\]]*)\]", body)]
+
+
+def parse_pairs(out, name="M"):
+    """Parse `M = [(a, b); ...] : list (nat * nat)` (with or without %nat annotations). None if absent."""
+    m = re.search(r"%s\s*=\s*(.*?)\n\s*:" % re.escape(name), out, re.S)
+    if not m:
+        return None
+    return [(int(a), int(b)) for a, b in re.findall(r"\(\s*(\d+)(?:%nat)?\s*,\s*(\d+)(?:%nat)?\s*\)", m.group(1))]
